@@ -102,3 +102,42 @@ Proof.
   - f_equal. f_equal. f_equal. apply E2.
   - rewrite E2. reflexivity.
 Qed.
+
+(* ... and once the input passes the identification stage the previous header does not matter either *)
+Definition ident_accepted (t : xlat) (k : skind) (content : bytes) : bool :=
+  let st1 := seekg (open_istream k content) (xlat_apply t 0%Z) in
+  let '(_, ident) := read st1 16 in
+  (lenN ident =? 16) &&
+  ((nthN ident 0 0 =? 127) && (nthN ident 1 0 =? 69) && (nthN ident 2 0 =? 76) && (nthN ident 3 0 =? 70)) &&
+  ((nthN ident 4 0 =? 2) || (nthN ident 4 0 =? 1)) && ((nthN ident 5 0 =? 1) || (nthN ident 5 0 =? 2)).
+
+Theorem load_ignores_header junk el1 el2 k content lazy :
+  el_xlat el1 = el_xlat el2 -> el_pos el1 = el_pos el2 -> el_compr el1 = el_compr el2 ->
+  ident_accepted (el_xlat el1) k content = true ->
+  load junk el1 k content lazy = load junk el2 k content lazy.
+Proof.
+  intros H1 H2 H3 Hid. unfold load. unfold ident_accepted in Hid. rewrite H1 in *.
+  assert (E2 : forall h st, with_stream (with_hdr (with_segs (with_secs el1 []) []) h) st = with_stream (with_hdr (with_segs (with_secs el2 []) []) h) st).
+  { intros h st. unfold with_stream, with_hdr, with_segs, with_secs. cbn. now rewrite H1, H2, H3. }
+  destruct (read _ 16) as [st2 ident].
+  apply Bool.andb_true_iff in Hid. destruct Hid as [Hid Hd].
+  apply Bool.andb_true_iff in Hid. destruct Hid as [Hid Hc].
+  apply Bool.andb_true_iff in Hid. destruct Hid as [Hl Hm].
+  rewrite Hl, Hm, Hc, Hd. cbn [negb].
+  destruct (read _ _) as [st4 got].
+  match goal with |- (if ?c then _ else _) = (if ?c then _ else _) => destruct c end.
+  - f_equal. f_equal. f_equal. apply E2.
+  - rewrite E2. reflexivity.
+Qed.
+
+(* the remaining case is a genuine dependence on the past (open finding refused-load-keeps-header): an input
+   refused at the identification stage leaves the previous header in place *)
+Theorem load_refused_keeps_header_refuted :
+  exists el1 el2 k content lazy,
+    el_xlat el1 = el_xlat el2 /\ el_pos el1 = el_pos el2 /\ el_compr el1 = el_compr el2 /\
+    el_secs el1 = el_secs el2 /\ el_segs el1 = el_segs el2 /\
+    load (fun _ => 0) el1 k content lazy <> load (fun _ => 0) el2 k content lazy.
+Proof.
+  exists (empty_elfio false), (with_hdr (empty_elfio false) (Some (new_header C64 MSB))), StringBuf, [1; 2; 3], false.
+  repeat split. intro H. vm_compute in H. discriminate H.
+Qed.
